@@ -191,6 +191,11 @@ def apply (s : State) : Step → State
         else { s with execs := upd s.execs t (s.execs t + 1), w := upd s.w i (.running t) }
       | _ => s
   | .wFinish i =>
+      -- ONE atomic step, in the order of the code: the error is stored into `w.err` (under
+      -- `w.lock`) BEFORE `w.sg.Done()`. The scheduler can pass `sg.Wait()` only after the
+      -- `Done`, hence only after the error is visible; so "record error" and "decrement the
+      -- completion count" may be merged into one step. The reverse order (`Done` first) is NOT
+      -- equivalent: see `applyLate` below and `Props.C26.c26_counterexample_error_after_done`.
       match s.w i with
       | .running t =>
         { s with finished := upd s.finished t true,
@@ -212,6 +217,58 @@ inductive Reachable (repaired : Bool) (workers maxJobs : Nat) : State → Prop w
   | step {s : State} (st : Step) :
       Reachable repaired workers maxJobs s → isEnabled s st = true →
       Reachable repaired workers maxJobs (apply s st)
+
+/-! ## The wrong order: `sg.Done()` before the error is recorded
+
+A variant of the worker's last step, split in two: `lateDone i` (body returned:
+`w.sg.Done()`; the worker still has to record the error) and `lateRecord i` (`w.err = err` if
+none is set; back to `select`). `pend i` = worker `i` is between the two. All other steps are
+those of the relation above. Used only to show that this order violates the property. -/
+
+inductive LStep where
+  | base (st : Step)        -- any step of the relation except `wFinish`
+  | lateDone (i : Nat)
+  | lateRecord (i : Nat)
+deriving DecidableEq, Repr
+
+structure LState where
+  s : State
+  pend : Nat → Option Nat    -- task whose result worker i has not recorded yet
+
+def isEnabledLate (l : LState) : LStep → Bool
+  | .base st =>
+      (match st with
+       | .wFinish _ => false
+       | .wCheck i => (l.pend i).isNone && isEnabled l.s st
+       | _ => isEnabled l.s st)
+  | .lateDone i =>
+      decide (i < l.s.workers) && (l.pend i).isNone &&
+        (match l.s.w i with | .running _ => true | _ => false)
+  | .lateRecord i => (l.pend i).isSome
+
+def applyLate (l : LState) : LStep → LState
+  | .base st => { l with s := apply l.s st }
+  | .lateDone i =>
+      match l.s.w i with
+      | .running t =>
+        -- the worker is not back in `select` yet: it keeps its slot (`holding` a task that is
+        -- finished cannot be fed, and `wCheck` is disabled while `pend i` is set)
+        { s := { l.s with finished := upd l.s.finished t true, sg := l.s.sg - 1,
+                          w := upd l.s.w i (.holding t) },
+          pend := upd l.pend i (some t) }
+      | _ => l
+  | .lateRecord i =>
+      match l.pend i with
+      | some t =>
+        { s := { l.s with err := if l.s.fails t && l.s.err.isNone then some t else l.s.err,
+                          w := upd l.s.w i .idle },
+          pend := upd l.pend i none }
+      | none => l
+
+inductive LateReachable (workers maxJobs : Nat) : LState → Prop where
+  | init : LateReachable workers maxJobs { s := init true workers maxJobs, pend := fun _ => none }
+  | step {l : LState} (st : LStep) : LateReachable workers maxJobs l → isEnabledLate l st = true →
+      LateReachable workers maxJobs (applyLate l st)
 
 /-! ## serial_workers.go -/
 
